@@ -235,7 +235,7 @@ func rolandSummed(s sysex.Manufacturer) []byte {
 func genC18(r *Rng, tier string, emit func(Case)) {
 	nRoland, nMal, nMmc := 900, 1500, 1500
 	if tier == "thorough" {
-		nRoland, nMal, nMmc = 40000, 80000, 80000
+		nRoland, nMal, nMmc = 30000, 80000, 80000
 	}
 	// the library's own constant first
 	emit(Case{Op: manuOp(sysex.GMReset, "all", "all"), Tags: []string{"roland:build", "roland:GMReset"}, NonTrivial: true})
@@ -245,7 +245,11 @@ func genC18(r *Rng, tier string, emit func(Case)) {
 		tags = append(tags, "roland:build")
 		// deltas for the *model's* corruption sweep: all for short messages, a few otherwise
 		cd := "all"
-		if len(s.SendingData) > 24 {
+		allUpTo := 24
+		if tier == "thorough" { // 30 000 values: keep the model's share of the run below a few minutes
+			allUpTo = 8
+		}
+		if len(s.SendingData) > allUpTo {
 			ds := []string{"1", "64", "127"}
 			used := map[int]bool{64: true}
 			want := 6
@@ -261,6 +265,13 @@ func genC18(r *Rng, tier string, emit func(Case)) {
 				}
 			}
 			cd = strings.Join(ds, ",")
+			if tier == "thorough" && len(s.SendingData) > 128 {
+				// the implementation is swept on every such message; the model's parser on one in four, one value per position
+				cd = ds[0]
+				if r.Chance(3, 4) {
+					cd = "-"
+				}
+			}
 		}
 		sw := "all"
 		if tier == "thorough" && len(s.SendingData) > 128 {
@@ -751,7 +762,7 @@ func runRolandBuild(c Case, m *Model, f map[string]string) (v Verdict) {
 	}
 	// --- property oracle 3: every single-byte corruption of address / payload / checksum is rejected
 	modelDeltas := map[int]bool{}
-	if f["cd"] != "all" {
+	if f["cd"] != "all" && f["cd"] != "-" {
 		for _, d := range strings.Split(f["cd"], ",") {
 			modelDeltas[atoi(d)] = true
 		}
@@ -807,7 +818,7 @@ func runRolandBuild(c Case, m *Model, f map[string]string) (v Verdict) {
 	}
 	v.Tags = append(v.Tags, "roland:corruptions-tried:"+bucket(tried))
 	// tie: the model's parser on the same corruptions of the same bytes
-	if mf["w"] == hx(w) {
+	if mf["w"] == hx(w) && f["cd"] != "-" {
 		cf := fields(m.Ask("roland.corrupt d=" + f["cd"] + " w=" + hx(w)))
 		if cf["acc"] != strconv.Itoa(accModel) || cf["n"] != strconv.Itoa(nModel) {
 			v.Mismatch = append(v.Mismatch, fmt.Sprintf("corruption sweep: model accepted %s of %s, impl accepted %d of %d", cf["acc"], cf["n"], accModel, nModel))
